@@ -76,8 +76,8 @@ fn msg_for(path: u8, c: &MCase, np: &str, pp: &str) -> Value {
     match path % 3 {
         0 => json!({"v0_4_18_to_v0_4_20": {"send_fees_to_treasury": c.fill % 2 == 0}}),
         1 => json!({"v0_4_20_to_v1_0_0": {
-            "native_account_address_prefix": if c.wrong_prefix_arg { "cosmos" } else { np },
-            "native_validator_address_prefix": format!("{}valoper", np),
+            "native_account_address_prefix": if c.wrong_prefix_arg && c.fill % 3 != 1 { "cosmos" } else { np },
+            "native_validator_address_prefix": if c.wrong_prefix_arg && c.fill % 3 == 1 { np.to_string() } else { format!("{}valoper", np) },
             "native_token_denom": "utia",
             "protocol_account_address_prefix": pp,
         }}),
@@ -132,7 +132,7 @@ pub fn eval(c: &MCase) -> Eval {
         "liquid_stake_token_denom": format!("factory/{}/milkTIA", w.setup.staking_addr),
         "treasury_address": treasury,
         "monitors": monitors_opt,
-        "validators": [addr20(vp, "v0"), addr20(vp, "v1"), addr20(vp, "v2")],
+        "validators": if c.wrong_prefix_arg && c.fill % 3 == 2 { json!([addr20(vp, "v0"), addr20("cosmosvaloper", "foreign"), addr20(vp, "v2")]) } else { json!([addr20(vp, "v0"), addr20(vp, "v1"), addr20(vp, "v2")]) },
         "batch_period": rng.range(1, 1_000_000),
         "unbonding_period": rng.range(1, 10_000_000),
         "protocol_fee_config": {"dao_treasury_fee": rng.below(100_001).to_string()},
